@@ -3,7 +3,7 @@
 From Coq Require Import String ZArith QArith Qround Qabs List Bool.
 From RV Require Import Base.PyNum Timing.Snapper Timing.Snap Timing.TimingMap Timing.Reseat Timing.Integrate
   Formats.SMText Formats.SM Formats.SMSpec Formats.SMWriteDom Generated.Tables Proofs.SMWitness Proofs.SMProofs Proofs.SMWriteProofs
-  Proofs.SMWriteWholeChart Proofs.SMWriteWholeFile Proofs.SMWriteWholeEx.
+  Proofs.SMWriteWholeChart Proofs.SMWriteWholeFile Proofs.SMWriteWholeEx Formats.SMReadDom Proofs.SMRoundTrip.
 Import ListNotations.
 Open Scope Q_scope.
 
@@ -103,12 +103,12 @@ Proof. exact live_table_ok. Qed.
 
 (* ---- sm_write_denotes, WHOLE FILE, for ALL mapsets of the decidable exact domain c03_domb (Formats/SMWriteDom.v:
    16 tame text fields, >= 1 chart, #OFFSET = first tempo point, the first chart's tempo rows = the millisecond form of an
-   on-grid script with metronome 4 and two-decimal, pairwise distinct tempo beats, all charts with literally these rows;
+   on-grid script with metronome 4 and six-decimal, pairwise distinct tempo beats, all charts with literally these rows;
    per chart: supported type, tame type/desc/diff, non-empty radar, columns in range, hold lengths > 0, long notes of a
    column disjoint, every event time (heads and tails too) at or after the first tempo point and on the snap grid of the
    active tempo, no two events with the same column and beat, TRUE lcm of every measure <= 384):
    SMMapSet.write succeeds, and EVERY text that renders the written tokens exactly (each float numeral parses to its value,
-   each tempo beat is a two-decimal numeral within 0.005) is a well-formed .sm text (sm_denote, the reference semantics,
+   each tempo beat is a six-decimal numeral within 0.0000005) is a well-formed .sm text (sm_denote, the reference semantics,
    independent of reamber's reader) whose header fields read back as the mapset's (16 text tags, OFFSET, SAMPLESTART,
    SAMPLELENGTH, SELECTABLE) and whose charts are, in order, the mapset's charts: same type/description/difficulty/meter/
    radar and, for every kind of object, the denoted notes are a permutation of the chart's list with equal columns and
@@ -118,6 +118,57 @@ Theorem C03_sm_write_denotes : forall s : smset, c03_domb s = true ->
     forall txt, match_toks 0 toks txt = true ->
       exists d, sm_denote txt = Some d /\ header_roundtrip 0 s d = true /\ Forall2 chart_denotes (d_charts d) (s_maps s).
 Proof. exact sm_write_denotes. Qed.
+
+(* ... in the form of the correspondence runner's oracle (Corr/RunC03.v evaluates exactly this predicate on the text the
+   implementation wrote): write_spec with tolerance 0 in the exact regime = header round trip + per chart header and, per
+   kind, the canonically sorted denoted and in-memory object lists agree position by position ---- *)
+Theorem C03_sm_write_spec : forall s : smset, c03_domb s = true ->
+  exists toks, sm_write live_conf current s = Some toks /\
+    forall txt, match_toks 0 toks txt = true -> exists d, sm_denote txt = Some d /\ write_spec 0 true s d = true.
+Proof. exact sm_write_spec. Qed.
+
+(* ---- CAP REGIME (c03_cap_domb: as c03_domb, but instead of "true lcm <= 384 and distinct beats" only "no two objects in
+   one written cell", so measures may need more than 384 rows): the file is still written and well-formed, header and
+   chart headers read back, and per kind the denoted notes are a permutation of the chart's list with equal columns where
+   each object (head and tail of a long note separately) is read at the time cap_time wb of the row it was written in,
+   and that row's beat wb satisfies  wb <= beat < wb + 4/384  (rounded DOWN to the row grid, less than one 384th of a
+   measure = 1/96 beat early; equal to the beat in every measure that did not hit the cap) ---- *)
+Theorem C03_sm_write_cap_bound : forall s : smset, c03_cap_domb s = true ->
+  exists toks, sm_write live_conf current s = Some toks /\
+    forall txt, match_toks 0 toks txt = true ->
+      exists d, sm_denote txt = Some d /\ header_roundtrip 0 s d = true
+        /\ exists init l, match s_maps s with c0 :: _ => tempo_script_of live_conf (c_bpms c0) = Some (init, l) | [] => False end
+            /\ Forall2 (chart_cap_denotes init l) (d_charts d) (s_maps s).
+Proof. exact sm_write_cap_bound. Qed.
+
+(* ---- READ-BACK (C03 o C02): SMMapSet.read of the written text gives the mapset back.  For every mapset of the exact
+   domain and every exact rendering txt of its written tokens that lies in the reader's decidable domain c02_domb
+   (Formats/SMReadDom.v, THE domain of C02_sm_read_denotes: reader dialect, header items, rows a multiple of 4, tempo
+   beats distinct on the 1/48 grid), the read succeeds and returns the same charts in the same order: type, description,
+   difficulty, meter equal, radar equal as numbers, and per kind the same objects (a permutation; columns equal, times and
+   lengths equal as numbers), and the same #OFFSET.
+   PARTIAL in one respect only: the hypothesis `c02_domb txt = true` is NOT derived from c03_domb (missing lemma, named
+   in docs/C03.md: written_text_in_reader_domain — every exact rendering of the tokens of a mapset in c03_domb whose tempo
+   beats are multiples of 1/4 satisfies dialect2, hdr_ok and c02_dom; it needs the row counts d_rows and the tempo rows
+   d_tempo of the denotation, which sm_write_denotes does not expose, and the dialect of the raw text with its comment
+   lines, for which SMWriteWholeFile.sm_write_text_shape gives the concrete shape).  It is decidable on the text, holds
+   on both example texts below (C03_read_back_examples), and its writer-dependent part (dialect2, hdr_ok, rows a multiple
+   of 4) is evaluated by the runner on every text the implementation wrote for a mapset in c03_domb (RunC03.readback_dom). *)
+Theorem C03_grid48_in_table : grid48_in_table (k_tbl live_conf) = true.
+Proof. vm_compute. reflexivity. Qed.
+
+Theorem C03_sm_write_read_back_partial : forall s : smset, c03_domb s = true ->
+  exists toks, sm_write live_conf current s = Some toks /\
+    forall txt, match_toks 0 toks txt = true -> c02_domb txt = true ->
+      exists s', sm_read live_conf current txt = Some s'
+                 /\ Forall2 chart_back (s_maps s') (s_maps s)
+                 /\ match s_offset s', s_offset s with Some a, Some b => a == b | _, _ => False end.
+Proof. exact (sm_write_read_back_gen C03_grid48_in_table). Qed.
+
+Example C03_read_back_examples :
+  c02_domb c03_ex_txt = true /\ c02_domb c03_ex_cap_txt = true /\ c02_domb w_ok_txt = true
+  /\ c02_domb w_sel_txt_current = true /\ c02_domb w_pad_txt_current = true.
+Proof. vm_compute. auto. Qed.
 
 (* non-vacuity of the exact domain: two charts (dance-solo with 6 columns, kb7-single with 7) sharing two tempo rows handed
    over out of order, the tempo change in the middle of a measure (beat 2.5), a hold ending on the tempo change, a roll across
@@ -132,6 +183,18 @@ Example C03_exact_domain_example :
                  && (length (flat_map d_notes (d_charts d)) =? 11)%nat
      | None => false end = true.
 Proof. exact c03_example. Qed.
+
+(* non-vacuity of the cap domain: objects at beats 1/5, 1/7, 1/9 of one measure (true lcm 1260 > 384) and a hold over two
+   measures: in c03_cap_domb, not in c03_domb; written with 384 rows; the literal text renders the tokens exactly; the
+   runner's grid-bound oracle holds on it and the exact oracle (tolerance 0) does not *)
+Example C03_cap_domain_example :
+  c03_cap_domb c03_ex_cap_set = true /\ c03_domb c03_ex_cap_set = false
+  /\ match sm_write live_conf current c03_ex_cap_set with Some toks => match_toks 0 toks c03_ex_cap_txt | None => false end = true
+  /\ match sm_denote c03_ex_cap_txt with
+     | Some d => write_spec 0 false c03_ex_cap_set d && negb (write_spec 0 true c03_ex_cap_set d)
+                 && match d_charts d with [dc] => match d_rows dc with [384%Z; 4%Z] => true | _ => false end | _ => false end
+     | None => false end = true.
+Proof. exact c03_cap_example. Qed.
 
 (* non-vacuity: a 6-key mapset with two tempo points (the second mid-measure), every kind of object, a hold across
    the tempo change: the writer's text renders the model's tokens and denotes the mapset *)
